@@ -22,6 +22,21 @@ CHECKS = {
     note='Trusted: reference encoders/decoders and the label-grammar reference (unit-tested by '
          'round trip), CPython text/gzip/expat layers, the SimRaw file seam. disco_reordered is '
          'not exercised.'),
+ 'C03': dict(
+    ref='DESIGN.md §5 C03',
+    technique='deterministic simulation: chains of real CLI commands in fresh/forked simulated '
+              'processes over a fault-injecting file seam (short reads, listdir permutations, '
+              'gzip, encodings), checked against independent decoders and the tool\'s own readers',
+    text='Seeded exploration: each scenario runs 1-3 real `treetools transform` commands (real '
+         'main() and argparse) over the simulated file system, in separate fresh processes or in '
+         'one process, in file or directory mode under two listing orders; every destination is '
+         'decoded by an independent decoder and compared with the model pushed through '
+         'read_view/write_view, re-read by the tool\'s own reader, and chains A->B->A must give '
+         'the original projection. Sampling over 20 format pairs x encodings x options; a clean '
+         'batch is evidence, not proof.',
+    note='Trusted: reference codecs and the read_view/write_view capability table (DESIGN '
+         'Appendix B), CPython text/gzip/expat layers. No --trans; raw parentheses only where the '
+         'documented mapping applies; gf is not requested for TIGER-XML output (unspecified).'),
 }
 
 NOT_BUILT_YET = {}
